@@ -143,9 +143,42 @@ Fixpoint take_bytes (n : nat) (b : bytes) : option (bytes * bytes) :=
             end
   end.
 
+(* lengths and offsets read from a file are N: never convert an untrusted N to nat before checking it against the
+   data actually present (the unary nat of a 4 GiB length field cannot be built) *)
+Definition take_bytes_N (n : N) (b : bytes) : option (bytes * bytes) :=
+  if nlen b <? n then None else take_bytes (N.to_nat n) b.
+Definition skipn_N {A} (n : N) (l : list A) : list A :=
+  if nlen l <=? n then [] else skipn (N.to_nat n) l.
+
+Lemma take_bytes_short : forall n b, (length b < n)%nat -> take_bytes n b = None.
+Proof.
+  induction n as [|n IH]; intros b H; [inversion H|].
+  destruct b as [|x r]; [reflexivity|]. cbn [take_bytes]. rewrite IH; [reflexivity|]. cbn [length] in H. lia.
+Qed.
+Lemma take_bytes_N_eq n b : take_bytes_N n b = take_bytes (N.to_nat n) b.
+Proof.
+  unfold take_bytes_N, nlen. destruct (N.of_nat (length b) <? n) eqn:E; [|reflexivity].
+  apply N.ltb_lt in E. symmetry. apply take_bytes_short. lia.
+Qed.
+Lemma skipn_N_eq {A} n (l : list A) : skipn_N n l = skipn (N.to_nat n) l.
+Proof.
+  unfold skipn_N, nlen. destruct (N.of_nat (length l) <=? n) eqn:E; [|reflexivity].
+  apply N.leb_le in E. symmetry. apply skipn_all2. lia.
+Qed.
+
 Fixpoint nth_opt {A} (l : list A) (n : nat) : option A :=
   match l, n with
   | [], _ => None
   | x :: _, O => Some x
   | _ :: l', S n' => nth_opt l' n'
   end.
+(* index given as an (untrusted) N: checked against the length before it is converted *)
+Definition nth_opt_N {A} (l : list A) (n : N) : option A :=
+  if nlen l <=? n then None else nth_opt l (N.to_nat n).
+Lemma nth_opt_beyond {A} : forall (l : list A) n, (length l <= n)%nat -> nth_opt l n = None.
+Proof. induction l as [|x l IH]; intros n H; [reflexivity|]. destruct n; cbn [length] in H; [lia|]. apply IH. lia. Qed.
+Lemma nth_opt_N_eq {A} (l : list A) n : nth_opt_N l n = nth_opt l (N.to_nat n).
+Proof.
+  unfold nth_opt_N, nlen. destruct (N.of_nat (length l) <=? n) eqn:E; [|reflexivity].
+  apply N.leb_le in E. symmetry. apply nth_opt_beyond. lia.
+Qed.
